@@ -71,6 +71,7 @@ type hsPlan struct {
 	nstreams     int
 	byz          []hsByzOp
 	cut          bool
+	ceMask       uint32 // C10: which calls of Server.CountError park the serve goroutine (bit i%32 of call i); 0 = never
 }
 
 type hsByzOp struct {
@@ -233,6 +234,12 @@ func hsDrawPlan(rt *rapid.T, focus string) *hsPlan {
 	}
 	p.nstreams = opened
 	p.healWUOnly = focus == "C08" && vs.Bool(c)
+	if focus == "C10" && vs.Pct(c, 40) {
+		// the serve goroutine is held inside Server.CountError (a callback of the
+		// public API, invoked in the middle of frame processing) until the
+		// scheduler releases it: handlers and the client run on meanwhile
+		p.ceMask = uint32(vs.Pick(c, 0xffffffff, 0x55555555, 0x11111111, 1+c.Intn(1<<16)))
+	}
 	if focus == "C16" {
 		nb := vs.Range(c, 1, 6)
 		for i := 0; i < nb; i++ {
@@ -317,6 +324,10 @@ type hsRun struct {
 	serveEnd bool
 	sc       *serverConn
 	srvPanic any
+	ceGate   chan struct{} // non-nil while the serve goroutine is parked inside Server.CountError
+	ceTyp    string
+	ceCalls  int
+	ceOff    bool // teardown: no more parking
 
 	// server settings as delivered to the client
 	srvFrames    []*vmFrame
@@ -888,9 +899,62 @@ func (r *hsRun) heal() {
 	r.tr.Ev("  heal: ample windows, request bodies finished")
 }
 
+// countErrorGate is Server.CountError in the runs that draw it. The server calls
+// it with "stream_..." / "conn_..." tokens on its serve goroutine, between
+// deciding that a frame is an error and acting on it (frame-parser tokens come
+// from the reader goroutine and pass through). Drawn calls park the serve
+// goroutine on a channel until the scheduler picks the "serve resume" event.
+func (r *hsRun) countErrorGate(typ string) {
+	if !strings.HasPrefix(typ, "stream_") && !strings.HasPrefix(typ, "conn_") {
+		return
+	}
+	r.mu.Lock()
+	if r.ceOff || r.ceGate != nil {
+		r.mu.Unlock()
+		return
+	}
+	r.ceCalls++
+	if r.p.ceMask>>(uint(r.ceCalls)%32)&1 == 0 {
+		r.mu.Unlock()
+		return
+	}
+	g := make(chan struct{})
+	r.ceGate, r.ceTyp = g, typ
+	r.mu.Unlock()
+	vs.G.Inc("fault.serve_parked_in_count_error")
+	<-g
+}
+
+func (r *hsRun) releaseGate(off bool) {
+	r.mu.Lock()
+	g := r.ceGate
+	r.ceGate = nil
+	r.ceOff = r.ceOff || off
+	r.mu.Unlock()
+	if g != nil {
+		close(g)
+	}
+}
+
 func (r *hsRun) Events(now time.Time) []vs.Event {
 	r.mu.Lock()
 	defer r.mu.Unlock()
+	if r.ceGate != nil {
+		evs := []vs.Event{{Label: "serve resume (CountError " + r.ceTyp + ")", Weight: 1, Run: func() { r.releaseGate(false) }}}
+		if r.srvClosed || !r.gotSrvSet {
+			return evs
+		}
+		if r.nextOp < len(r.p.ops) {
+			op := r.p.ops[r.nextOp]
+			evs = append(evs, vs.Event{Label: "client " + op.kind, Weight: 2, Run: func() {
+				r.mu.Lock()
+				r.nextOp++
+				r.mu.Unlock()
+				r.doOp(op)
+			}})
+		}
+		return evs // (no heal while the serve goroutine is parked)
+	}
 	if r.srvClosed {
 		return nil
 	}
@@ -1262,6 +1326,9 @@ func hsRunOnce(t *testing.T, rt *rapid.T, focus string) {
 
 		srv := &Server{MaxConcurrentStreams: p.maxStreams, MaxUploadBufferPerConnection: p.upConn,
 			MaxUploadBufferPerStream: p.upStream, MaxReadFrameSize: p.maxReadFrame, NewWriteScheduler: hsScheduler(p.sched)}
+		if p.ceMask != 0 {
+			srv.CountError = r.countErrorGate
+		}
 		h1 := &http.Server{Handler: http.HandlerFunc(r.handler), ErrorLog: log.New(io.Discard, "", 0)}
 		if err := ConfigureServer(h1, srv); err != nil { // per-Server state (error-channel pool created inside this bubble)
 			harness = "ConfigureServer: " + err.Error()
@@ -1302,7 +1369,7 @@ func hsRunOnce(t *testing.T, rt *rapid.T, focus string) {
 		first.endOff = r.cw()
 		r.cSettings = append(r.cSettings, first)
 		r.conn.DeliverAll()
-		tr.Ev("plan focus=%s sched=%s maxStreams=%d upConn=%d upStream=%d maxRead=%d iw=%d mf=%d bound=%d streams=%d ops=%d", focus, p.sched, p.maxStreams, p.upConn, p.upStream, p.maxReadFrame, p.initIW, p.initMF, p.bound, p.nstreams, len(p.ops))
+		tr.Ev("plan focus=%s sched=%s maxStreams=%d upConn=%d upStream=%d maxRead=%d iw=%d mf=%d bound=%d streams=%d ops=%d ceMask=%#x", focus, p.sched, p.maxStreams, p.upConn, p.upStream, p.maxReadFrame, p.initIW, p.initMF, p.bound, p.nstreams, len(p.ops), p.ceMask)
 
 		sim.AddSource(r)
 		if focus == "C10" || focus == "C15" {
@@ -1340,6 +1407,9 @@ func hsRunOnce(t *testing.T, rt *rapid.T, focus string) {
 		sim.Done = func() bool {
 			r.mu.Lock()
 			defer r.mu.Unlock()
+			if r.ceGate != nil {
+				return false
+			}
 			if r.srvClosed && !r.gracefulSent {
 				return true
 			}
@@ -1355,6 +1425,7 @@ func hsRunOnce(t *testing.T, rt *rapid.T, focus string) {
 		}
 		nontrivial = r.nextOp > 0 && len(r.srvFrames) > 2
 		// teardown
+		r.releaseGate(true)
 		r.conn.A.Close()
 		r.conn.DeliverAll()
 		sim.Abort()
